@@ -154,6 +154,9 @@ Proof.
     match goal with X : printable s2 = true |- _ => destruct (IHs2 X) as (t & r & E & St) end.
     destruct (wrap_cases (S lvl_tern) (lvl s2) (raw s2)) as [W|W]; rewrite W; [rewrite E|]; cbn; eauto.
   - unfold paren. cbn. eauto.
+  - do 2 eexists; split; reflexivity.
+  - do 2 eexists; split; reflexivity.
+  - do 2 eexists; split; reflexivity.
 Qed.
 
 (* ------------------------------------------------------------------ follow *)
@@ -369,7 +372,7 @@ Lemma PA_S : forall d c min ts,
   PA (S d) c min ts = BODYK d c min (S (List.length ts)) ts.
 Proof. reflexivity. Qed.
 
-Definition fits (s : sx) (c : nat * nat) : Prop := fst c + needb s <= maxb.
+Definition fits (s : sx) (c : nat * nat) : Prop := fst c + needb s <= maxb /\ snd c + needa s <= maxdim.
 
 (* parsing the bare text of s, in a frame that accepts level p <= lvl s *)
 Definition TBp (s : sx) : Prop := forall d c min p ts,
@@ -476,7 +479,7 @@ Qed.
 Lemma ml_paren : forall e, TBp e -> MLp (SParen e).
 Proof.
   intros e TB d c min p k R ts Hthr Hp Hpr Hn Hf Hfo HL.
-  cbn [printable need spine raw desugar] in *. unfold fits in *. cbn [needb] in Hf.
+  cbn [printable need spine raw desugar] in *. unfold fits in *. cbn [needb needa] in Hf.
   rewrite Nat.add_0_r. unfold paren. cbn [app]. rewrite <- app_assoc. cbn [app].
   unfold body_k, Pratt.prefix.
   rewrite (TB d c 0 0 (TRParen :: ts)); try solve [side].
@@ -486,7 +489,7 @@ Lemma ml_un : forall u e, TBp e -> MLp (SUn u e).
 Proof.
   intros u e TB d c min p k R ts Hthr Hp Hpr Hn Hf Hfo HL.
   pose proof (tp_of_tb e TB) as TP.
-  cbn [printable need spine raw desugar] in *. unfold fits in *. cbn [needb] in Hf.
+  cbn [printable need spine raw desugar] in *. unfold fits in *. cbn [needb needa] in Hf.
   rewrite Nat.add_0_r.
   assert (Hpre : Pratt.prefix bp maxb maxdim (PA d) c
             ((tok_unop u :: (if (lvl e <? lvl_un u) || starts_unary (raw e) then paren (raw e) else raw e)) ++ ts)
@@ -541,7 +544,7 @@ Proof.
   assert (Hcc : is_concat o && is_unary (desugar b) = false).
   { destruct o; cbn in *; try reflexivity. destruct (is_unary (desugar b)); cbn in *; congruence. }
   destruct (infix_not_is o Hinf) as [Hnis Hnpipe].
-  cbn [need] in Hn. unfold fits in *. cbn [needb] in Hf. cbn [lvl] in Hp.
+  cbn [need] in Hn. unfold fits in *. cbn [needb needa] in Hf. cbn [lvl] in Hp.
   cbn [raw spine desugar] in *.
   rewrite <- app_assoc. cbn [app].
   replace (k + S (if lvl a <? lp o then 0 else spine a)) with (S k + (if lvl a <? lp o then 0 else spine a)) by lia.
@@ -568,7 +571,7 @@ Proof.
   intros a b MLa TBa TBb d c min p k R ts Hthr Hp Hpr Hn Hf Hfo HL.
   pose proof (top_of b TBb) as TOPb.
   cbn [printable] in Hpr. apply andb_prop in Hpr. destruct Hpr as [Hpa Hpb].
-  cbn [need] in Hn. unfold fits in *. cbn [needb] in Hf. cbn [lvl] in Hp.
+  cbn [need] in Hn. unfold fits in *. cbn [needb needa] in Hf. cbn [lvl] in Hp.
   cbn [raw spine desugar] in *.
   rewrite <- app_assoc. cbn [app].
   replace (k + S (S (if lvl a <? lp OIn then 0 else spine a)))
@@ -598,7 +601,7 @@ Proof.
   intros cnd t f MLt TBt TBc TBf d c min p k R ts Hthr Hp Hpr Hn Hf Hfo HL.
   cbn [printable] in Hpr. apply andb_prop in Hpr. destruct Hpr as [Hpr Hpf].
   apply andb_prop in Hpr. destruct Hpr as [Hpc Hpt].
-  cbn [need] in Hn. unfold fits in *. cbn [needb] in Hf. cbn [lvl] in Hp. unfold lvl_tern in Hp.
+  cbn [need] in Hn. unfold fits in *. cbn [needb needa] in Hf. cbn [lvl] in Hp. unfold lvl_tern in Hp.
   assert (p = 0) by lia. subst p.
   cbn [raw spine desugar] in *.
   rewrite <- app_assoc. cbn [app]. rewrite <- app_assoc. cbn [app].
@@ -764,14 +767,15 @@ Lemma kwgood_all : forall d c (kw : list (str * sx)),
   forallb (fun p : str * sx => match p with (_, v) => printable v end) kw = true ->
   fold_right Nat.max 0 (map (fun p : str * sx => match p with (_, v) => need v end) kw) <= d ->
   fst c + fold_right Nat.max 0 (map (fun p : str * sx => match p with (_, v) => needb v end) kw) <= maxb ->
+  snd c + fold_right Nat.max 0 (map (fun p : str * sx => match p with (_, v) => needa v end) kw) <= maxdim ->
   Forall (kwgood d c) kw.
 Proof.
-  intros d c kw. induction kw as [|[n v] r IH]; intros HTB Hp Hn Hb; constructor.
+  intros d c kw. induction kw as [|[n v] r IH]; intros HTB Hp Hn Hb Ha; constructor.
   - cbn [forallb] in Hp. apply andb_prop in Hp. destruct Hp as [Hp _].
-    cbn [map fold_right] in Hn, Hb.
+    cbn [map fold_right] in Hn, Hb, Ha.
     unfold kwgood, fits. cbn [snd]. repeat split; try lia; auto. apply HTB. cbn. auto.
   - cbn [forallb] in Hp. apply andb_prop in Hp. destruct Hp as [_ Hp].
-    cbn [map fold_right] in Hn, Hb.
+    cbn [map fold_right] in Hn, Hb, Ha.
     apply IH; auto; try lia. intros v' Hin. apply HTB. cbn. auto.
 Qed.
 
@@ -808,7 +812,7 @@ Proof.
   intros e n kw neg MLe TBe TBk d c min p k R ts Hthr Hp Hpr Hn Hf Hfo HL.
   cbn [printable] in Hpr. repeat (apply andb_prop in Hpr; destruct Hpr as [Hpr ?]).
   rename H into Hpk, H0 into Hnd, H1 into Hnn.
-  cbn [need] in Hn. unfold fits in *. cbn [needb] in Hf. cbn [lvl] in Hp.
+  cbn [need] in Hn. unfold fits in *. cbn [needb needa] in Hf. cbn [lvl] in Hp.
   rewrite raw_test. rewrite desugar_test in HL. cbn [spine].
   rewrite <- app_assoc. cbn [app].
   replace (k + S (if lvl e <? lp OIs then 0 else spine e)) with (S k + (if lvl e <? lp OIs then 0 else spine e)) by lia.
@@ -842,7 +846,7 @@ Proof.
   intros e n kw MLe TBe TBk d c min p k R ts Hthr Hp Hpr Hn Hf Hfo HL.
   cbn [printable] in Hpr. repeat (apply andb_prop in Hpr; destruct Hpr as [Hpr ?]).
   rename H into Hpk, H0 into Hnd.
-  cbn [need] in Hn. unfold fits in *. cbn [needb] in Hf. cbn [lvl] in Hp.
+  cbn [need] in Hn. unfold fits in *. cbn [needb needa] in Hf. cbn [lvl] in Hp.
   rewrite raw_filter. rewrite desugar_filter in HL. cbn [spine].
   rewrite <- app_assoc. cbn [app].
   replace (k + S (if lvl e <? lp OPipe then 0 else spine e)) with (S k + (if lvl e <? lp OPipe then 0 else spine e)) by lia.
@@ -867,7 +871,7 @@ Proof.
   intros n kw TBk d c min p k R ts Hthr Hp Hpr Hn Hf Hfo HL.
   cbn [printable] in Hpr. repeat (apply andb_prop in Hpr; destruct Hpr as [Hpr ?]).
   rename H into Hpk, H0 into Hnd.
-  cbn [need] in Hn. unfold fits in *. cbn [needb] in Hf.
+  cbn [need] in Hn. unfold fits in *. cbn [needb needa] in Hf.
   rewrite raw_call. rewrite desugar_call in HL. cbn [spine]. rewrite Nat.add_0_r.
   assert (HG : Forall (kwgood d c) kw).
   { apply kwgood_all; auto; lia. }
@@ -888,18 +892,18 @@ Lemma starter_not_colon : forall t r, starter t = true -> hd_is (t :: r) TColon 
 Proof. destruct t; cbn; intros; try reflexivity; discriminate. Qed.
 
 Lemma subscript_item_ok : forall d c e' i (opt : bool) ts,
-  TBp i -> printable i = true -> need i <= d -> S (fst c) + needb i <= maxb ->
+  TBp i -> printable i = true -> need i <= d -> S (fst c) + needb i <= maxb -> snd c + needa i <= maxdim ->
   parse_subscript maxb (PA d) c e' ((if opt then TQLBracket else TLBracket) :: raw i ++ TRBracket :: ts)
   = Some (EItem e' (desugar i) opt, ts).
 Proof.
-  intros d c e' i opt ts TB Hp Hn Hb.
+  intros d c e' i opt ts TB Hp Hn Hb Ha.
   unfold parse_subscript.
   assert (Hm : maxb <? S (fst c) = false) by (apply Nat.ltb_ge; lia).
   destruct (raw_hd i Hp) as (t & r & Er & St).
   assert (Hc : hd_is (raw i ++ TRBracket :: ts) TColon = false).
   { rewrite Er. cbn [app]. apply starter_not_colon. exact St. }
   destruct opt; hdis; rewrite Hm; rewrite Hc; unfold sub_opt;
-    rewrite (TB d (S (fst c), snd c) 0 0 (TRBracket :: ts)); try solve [side]; try (unfold fits; cbn [fst]; lia);
+    rewrite (TB d (S (fst c), snd c) 0 0 (TRBracket :: ts)); try solve [side]; try (unfold fits; cbn [fst snd]; lia);
     hdis; reflexivity.
 Qed.
 
@@ -921,15 +925,15 @@ Proof. intros x r H. destruct (raw_hd x H) as (t & l & E & St). rewrite E. cbn [
 
 Definition sgood (d : nat) (c : nat * nat) (o : option sx) : Prop :=
   match o with
-  | Some x => TBp x /\ printable x = true /\ need x <= d /\ S (fst c) + needb x <= maxb
+  | Some x => TBp x /\ printable x = true /\ need x <= d /\ S (fst c) + needb x <= maxb /\ snd c + needa x <= maxdim
   | None => True
   end.
 
 Lemma sgood_parse : forall d c x r, sgood d c (Some x) -> closerL r = true ->
   PA d (S (fst c), snd c) 0 (raw x ++ r) = Some (desugar x, r).
 Proof.
-  intros d c x r (TB & Hp & Hn & Hb) Hc.
-  apply (TB d (S (fst c), snd c) 0 0 r); auto using wf_thr0, closerL_refusedL, closerL_followL; try lia; try (unfold fits; cbn [fst]; lia).
+  intros d c x r (TB & Hp & Hn & Hb & Ha) Hc.
+  apply (TB d (S (fst c), snd c) 0 0 r); auto using wf_thr0, closerL_refusedL, closerL_followL; try lia; try (unfold fits; cbn [fst snd]; lia).
 Qed.
 
 Lemma subscript_slice_ok : forall d c e' a b cc (opt : bool) ts,
@@ -963,8 +967,9 @@ Lemma sgood_intro : forall d c o,
   match o with Some x => printable x | None => true end = true ->
   match o with Some x => need x | None => 0 end <= d ->
   S (fst c) + match o with Some x => needb x | None => 0 end <= maxb ->
+  snd c + match o with Some x => needa x | None => 0 end <= maxdim ->
   sgood d c o.
-Proof. intros d c [x|] HT Hp Hn Hb; cbn; auto. Qed.
+Proof. intros d c [x|] HT Hp Hn Hb Ha; cbn; auto. Qed.
 
 Lemma chain_loop_S : forall P k c e t ts1,
   chain_loop maxb P (S k) c e (t :: ts1) =
@@ -1059,7 +1064,7 @@ Proof.
     { apply IHs; auto. intros x Hx. apply HTB. cbn [size]. lia. }
     intros d c k R ts Hp Hn Hf HL.
     cbn [printable] in Hp. apply andb_prop in Hp. destruct Hp as [_ Hp].
-    cbn [need] in Hn. unfold fits in *. cbn [needb] in Hf.
+    cbn [need] in Hn. unfold fits in *. cbn [needb needa] in Hf.
     cbn [clen citems chead desugar] in *. rewrite <- app_assoc. cbn [app].
     replace (k + S (clen s)) with (S k + clen s) by lia.
     apply CL; auto; try (unfold fits; lia).
@@ -1074,7 +1079,7 @@ Proof.
     intros d c k R ts Hp Hn Hf HL.
     cbn [printable] in Hp. apply andb_prop in Hp. destruct Hp as [Hp Hpi].
     apply andb_prop in Hp. destruct Hp as [_ Hp].
-    cbn [need] in Hn. unfold fits in *. cbn [needb] in Hf.
+    cbn [need] in Hn. unfold fits in *. cbn [needb needa] in Hf.
     unfold needw in Hn. rewrite (chain_lvl _ Hc), Nat.ltb_irrefl in Hn.
     cbn [clen citems chead desugar] in *. rewrite <- !app_assoc. cbn [app].
     replace (k + S (clen s1)) with (S k + clen s1) by lia.
@@ -1089,7 +1094,7 @@ Proof.
     { apply IHs; auto. intros x Hx. apply HTB. cbn [size]. lia. }
     intros d cc k R ts Hp Hn Hf HL.
     cbn [printable] in Hp. repeat (apply andb_prop in Hp; destruct Hp as [Hp ?]).
-    cbn [need] in Hn. unfold fits in *. cbn [needb] in Hf.
+    cbn [need] in Hn. unfold fits in *. cbn [needb needa] in Hf.
     unfold needw in Hn. rewrite (chain_lvl _ Hc), Nat.ltb_irrefl in Hn.
     assert (Ga : sgood d cc a).
     { apply sgood_intro; auto; try lia. intros x E. subst. apply HTB. cbn [size]. lia. }
@@ -1168,7 +1173,7 @@ Proof.
   cbn [printable] in Hpr. apply andb_prop in Hpr. destruct Hpr as [Hpr Hpi].
   apply andb_prop in Hpr. destruct Hpr as [Hopt Hpe].
   destruct opt; [rewrite Hc in Hopt; discriminate|].
-  cbn [need] in Hn. unfold fits in *. cbn [needb] in Hf.
+  cbn [need] in Hn. unfold fits in *. cbn [needb needa] in Hf.
   cbn [raw spine desugar] in *. rewrite Hc.
   rewrite <- !app_assoc. cbn [app].
   replace (k + S (if lvl e <? lvl_atom then 0 else spine e)) with (S k + (if lvl e <? lvl_atom then 0 else spine e)) by lia.
@@ -1187,7 +1192,7 @@ Proof.
   intros e a b cc opt Hc MLe TBe Ta Tb Tc d c min p k R ts Hthr Hp Hpr Hn Hf Hfo HL.
   cbn [printable] in Hpr. repeat (apply andb_prop in Hpr; destruct Hpr as [Hpr ?]).
   destruct opt; [rewrite Hc in Hpr; discriminate|].
-  cbn [need] in Hn. unfold fits in *. cbn [needb] in Hf.
+  cbn [need] in Hn. unfold fits in *. cbn [needb needa] in Hf.
   rewrite raw_slice. cbn [spine desugar] in *. rewrite Hc.
   rewrite <- !app_assoc. cbn [app].
   replace (k + S (if lvl e <? lvl_atom then 0 else spine e)) with (S k + (if lvl e <? lvl_atom then 0 else spine e)) by lia.
@@ -1202,12 +1207,417 @@ Proof.
     rewrite (subscript_slice_ok d c (desugar e) a b cc false ts); auto; try lia.
 Qed.
 
+
+(* ------------------------------------------------------------------ array / map literals, list comprehensions
+   (parse_array / parse_map / parse_list_comprehension: dedicated loops, every element parsed at
+   min_bp 0 one recursion level down, like a parenthesised expression) *)
+Lemma wf_thr_c : thr_ok bp (S (tern_l bp)) 1 = true.
+Proof. pose proof Hwf as H. unfold wf_bp in H. apply andb_prop in H. destruct H as [_ H]. exact H. Qed.
+
+Definition xgood (d : nat) (c : nat * nat) (v : sx) : Prop :=
+  TBp v /\ printable v = true /\ need v <= d /\ fits v c.
+
+Lemma xgood_parse : forall d c v r, xgood d c v -> closerL r = true ->
+  PA d c 0 (raw v ++ r) = Some (desugar v, r).
+Proof.
+  intros d c v r (TB & Hp & Hn & Hf) Hc.
+  apply (TB d c 0 0 r); auto using closerL_refusedL, closerL_followL; try lia.
+Qed.
+
+Lemma starter_not_spread : forall t r, starter t = true -> hd_is (t :: r) TSpread = false.
+Proof. destruct t; cbn; intros; try reflexivity; discriminate. Qed.
+Lemma starter_not_rbrace : forall t r, starter t = true -> hd_is (t :: r) TRBrace = false.
+Proof. destruct t; cbn; intros; try reflexivity; discriminate. Qed.
+Lemma hd_raw_spread : forall x r, printable x = true -> hd_is (raw x ++ r) TSpread = false.
+Proof. intros x r H. destruct (raw_hd x H) as (t & l & E & St). rewrite E. cbn [app]. apply starter_not_spread; exact St. Qed.
+
+(* separated items: `first` = no comma before the first one *)
+Fixpoint stoks {A} (f : A -> list token) (first : bool) (l : list A) : list token :=
+  match l with
+  | [] => []
+  | it :: r => (if first then [] else [TComma]) ++ f it ++ stoks f false r
+  end.
+Definition trailc (trail : bool) : list token := if trail then [TComma] else [].
+
+Lemma sep_by_stoks : forall {A} (f : A -> list token) l, sep_by TComma (map f l) = stoks f true l.
+Proof.
+  intros A f. induction l as [|it r IH]; [reflexivity|].
+  destruct r as [|y r'].
+  - cbn. rewrite app_nil_r. reflexivity.
+  - change (sep_by TComma (map f (it :: y :: r')))
+      with (f it ++ TComma :: sep_by TComma (map f (y :: r'))).
+    rewrite IH. reflexivity.
+Qed.
+
+Lemma stoks_len_f : forall {A} (f : A -> list token) l, List.length l <= List.length (stoks f false l).
+Proof.
+  intros A f. induction l as [|it r IH]; cbn [stoks List.length]; [lia|].
+  rewrite !app_length. cbn [List.length]. lia.
+Qed.
+Lemma stoks_len : forall {A} (f : A -> list token) l first, List.length l <= S (List.length (stoks f first l)).
+Proof.
+  intros A f l first. destruct l as [|it r]; cbn [stoks List.length]; [lia|].
+  rewrite !app_length. pose proof (stoks_len_f f r). destruct first; cbn [List.length]; lia.
+Qed.
+
+(* what follows an item: a comma or the closing bracket *)
+Lemma stail_facts : forall {A} (f : A -> list token) (r : list A) trail close ts,
+  close = TRBracket \/ close = TRBrace ->
+  closerL (stoks f false r ++ trailc trail ++ close :: ts) = true
+  /\ hd_kw (stoks f false r ++ trailc trail ++ close :: ts) = KPlain.
+Proof.
+  intros A f r trail close ts [E|E]; subst; destruct r; destruct trail; cbn [stoks trailc app]; split; reflexivity.
+Qed.
+
+Definition aitem (it : bool * sx) : list token :=
+  match it with (b, v) => (if b then [TSpread] else []) ++ raw v end.
+Definition ditems (items : list (bool * sx)) : list (bool * expr) :=
+  map (fun it : bool * sx => match it with (b, v) => (b, desugar v) end) items.
+
+Lemma raw_arr : forall items trail,
+  raw (SArr items trail) = TLBracket :: sep_by TComma (map aitem items) ++ trailc trail ++ [TRBracket].
+Proof. reflexivity. Qed.
+Lemma desugar_arr : forall items trail, desugar (SArr items trail) = fold_array (ditems items).
+Proof. reflexivity. Qed.
+
+Lemma array_loop_S : forall P k c0 c1 items ts,
+  array_loop bp P (S k) c0 c1 items ts =
+    if hd_is ts TRBracket then Some (fold_array items, tl ts) else
+    let after_comma :=
+      match items with
+      | [] => Some ts
+      | _ => if hd_is ts TComma then Some (tl ts) else None
+      end in
+    match after_comma with
+    | None => None
+    | Some ts1 =>
+      if hd_is ts1 TRBracket then Some (fold_array items, tl ts1) else
+      if hd_is ts1 TSpread then
+        match P c1 0 (tl ts1) with
+        | Some (e, ts2) => array_loop bp P k c0 c1 (items ++ [(true, e)]) ts2
+        | None => None
+        end
+      else
+        match P c1 0 ts1 with
+        | Some (e, ts2) =>
+            let is_for := match items with [] => match hd_kw ts2 with KFor => true | _ => false end | _ => false end in
+            if is_for then parse_comp bp P c0 e ts2
+            else array_loop bp P k c0 c1 (items ++ [(false, e)]) ts2
+        | None => None
+        end
+    end.
+Proof. reflexivity. Qed.
+
+Lemma acc_snoc_nonempty : forall {A} (acc : list A) x,
+  match acc ++ [x] with [] => true | _ => false end = false.
+Proof. intros A acc x. destruct acc; reflexivity. Qed.
+
+Lemma array_loop_ok : forall d c0 c1 items acc j trail ts,
+  Forall (xgood d c1) (map snd items) ->
+  (trail = true -> acc <> [] \/ items <> []) ->
+  array_loop bp (PA d) (S (List.length items) + j) c0 c1 acc
+     (stoks aitem (match acc with [] => true | _ => false end) items ++ trailc trail ++ TRBracket :: ts)
+  = Some (fold_array (acc ++ ditems items), ts).
+Proof.
+  intros d c0 c1 items. induction items as [|[b v] r IH]; intros acc j trail ts HF HT.
+  - cbn [stoks app List.length plus ditems map]. rewrite app_nil_r. rewrite array_loop_S.
+    destruct trail.
+    + destruct acc as [|a0 acc0]; [destruct (HT eq_refl) as [X|X]; congruence|].
+      cbn [trailc app]. hdis. cbv beta iota zeta. hdis. reflexivity.
+    + cbn [trailc app]. hdis. reflexivity.
+  - cbn [map snd] in HF. inversion HF as [|x l Hg HF']; subst.
+    pose proof Hg as (TB & Hp & Hn & Hfi).
+    change (S (List.length ((b, v) :: r)) + j) with (S (S (List.length r) + j)).
+    rewrite array_loop_S.
+    destruct (stail_facts aitem r trail TRBracket ts (or_introl eq_refl)) as [HcR HkR].
+    assert (HT' : trail = true -> acc ++ [(b, desugar v)] <> [] \/ r <> []).
+    { intros _. left. destruct acc; discriminate. }
+    specialize (IH (acc ++ [(b, desugar v)]) j trail ts HF' HT').
+    rewrite acc_snoc_nonempty in IH. rewrite <- app_assoc in IH. cbn [app] in IH.
+    cbn [stoks]. rewrite <- !app_assoc.
+    remember (stoks aitem false r ++ trailc trail ++ TRBracket :: ts) as R eqn:ER.
+    pose proof (xgood_parse d c1 v R Hg HcR) as HP.
+    destruct acc as [|a0 acc0]; destruct b; cbn [aitem app]; hdis; cbv beta iota zeta; hdis;
+      rewrite ?(hd_raw_rbracket v R Hp), ?(hd_raw_spread v R Hp); rewrite HP; cbv beta iota zeta;
+      rewrite ?HkR; cbv beta iota zeta; cbn [app ditems map] in *; exact IH.
+Qed.
+
+Lemma parse_array_ok : forall d c items trail ts,
+  Forall (xgood d (fst c, S (snd c))) (map snd items) -> S (snd c) <= maxdim ->
+  (trail = true -> items <> []) ->
+  parse_array bp maxdim (PA d) c (stoks aitem true items ++ trailc trail ++ TRBracket :: ts)
+  = Some (fold_array (ditems items), ts).
+Proof.
+  intros d c items trail ts HF Hm HT. unfold parse_array.
+  assert (E : maxdim <? S (snd c) = false) by (apply Nat.ltb_ge; lia). rewrite E.
+  pose proof (stoks_len aitem items true) as Hl.
+  set (L := List.length (stoks aitem true items ++ trailc trail ++ TRBracket :: ts)).
+  assert (HL : S L = S (List.length items) + (L - List.length items)).
+  { subst L. rewrite !app_length. cbn [List.length]. lia. }
+  rewrite HL.
+  apply (array_loop_ok d c (fst c, S (snd c)) items [] (L - List.length items) trail ts HF).
+  intros Et. right. auto.
+Qed.
+
+Lemma fold_max_in : forall {A} (f : A -> nat) (l : list A) x, In x l -> f x <= fold_right Nat.max 0 (map f l).
+Proof. intros A f l x H. apply fold_max_le. apply in_map. exact H. Qed.
+
+(* all elements of a literal are good one level down *)
+Lemma xgood_all : forall {A} d c (l : list (A * sx)),
+  (forall v, In v (map snd l) -> TBp v) ->
+  forallb (fun p : A * sx => match p with (_, v) => printable v end) l = true ->
+  fold_right Nat.max 0 (map (fun p : A * sx => match p with (_, v) => need v end) l) <= d ->
+  fst c + fold_right Nat.max 0 (map (fun p : A * sx => match p with (_, v) => needb v end) l) <= maxb ->
+  snd c + fold_right Nat.max 0 (map (fun p : A * sx => match p with (_, v) => needa v end) l) <= maxdim ->
+  Forall (xgood d c) (map snd l).
+Proof.
+  intros A d c l. induction l as [|[n v] r IH]; intros HTB Hp Hn Hb Ha; cbn [map snd]; constructor.
+  - cbn [forallb] in Hp. apply andb_prop in Hp. destruct Hp as [Hp _].
+    cbn [map fold_right] in Hn, Hb, Ha.
+    unfold xgood, fits. repeat split; try lia; auto. apply HTB. cbn. auto.
+  - cbn [forallb] in Hp. apply andb_prop in Hp. destruct Hp as [_ Hp].
+    cbn [map fold_right] in Hn, Hb, Ha.
+    apply IH; auto; try lia. intros v' Hin. apply HTB. cbn. auto.
+Qed.
+
+Lemma nonempty_ne : forall {A} (l : list A) (trail : bool),
+  (if trail then nonempty l else true) = true -> trail = true -> l <> [].
+Proof. intros A l trail H E. subst. destruct l; [discriminate|congruence]. Qed.
+
+Lemma ml_arr : forall items trail, (forall v, In v (map snd items) -> TBp v) -> MLp (SArr items trail).
+Proof.
+  intros items trail TBk d c min p k R ts Hthr Hp Hpr Hn Hf Hfo HL.
+  cbn [printable] in Hpr. apply andb_prop in Hpr. destruct Hpr as [Htr Hpk].
+  cbn [need] in Hn. unfold fits in *. cbn [needb needa] in Hf.
+  rewrite raw_arr. rewrite desugar_arr in HL. cbn [spine]. rewrite Nat.add_0_r.
+  assert (HG : Forall (xgood d (fst c, S (snd c))) (map snd items)).
+  { apply xgood_all; auto; cbn [fst snd]; lia. }
+  unfold body_k. cbn [app]. unfold Pratt.prefix.
+  rewrite sep_by_stoks. rewrite <- !app_assoc. cbn [app].
+  rewrite (parse_array_ok d c items trail ts HG); [exact HL|lia|].
+  apply nonempty_ne. exact Htr.
+Qed.
+
+(* ---- maps *)
+Definition mitem (en : option mkey * sx) : list token :=
+  match en with
+  | (Some k, v) => tok_mkey k :: TColon :: raw v
+  | (None, v) => TSpread :: raw v
+  end.
+Definition dentries (es : list (option mkey * sx)) : list (option mkey * expr) :=
+  map (fun en : option mkey * sx => match en with (k, v) => (k, desugar v) end) es.
+
+Lemma raw_map : forall es trail,
+  raw (SMap es trail) = TLBrace :: sep_by TComma (map mitem es) ++ trailc trail ++ [TRBrace].
+Proof. reflexivity. Qed.
+Lemma desugar_map : forall es trail, desugar (SMap es trail) = fold_map (dentries es).
+Proof. reflexivity. Qed.
+
+Lemma map_loop_S : forall P k c es ts,
+  map_loop P (S k) c es ts =
+    if hd_is ts TRBrace then Some (fold_map es, tl ts) else
+    let after_comma :=
+      match es with
+      | [] => Some ts
+      | _ => if hd_is ts TComma then Some (tl ts) else None
+      end in
+    match after_comma with
+    | None => None
+    | Some ts1 =>
+      if hd_is ts1 TRBrace then Some (fold_map es, tl ts1) else
+      if hd_is ts1 TSpread then
+        match P c 0 (tl ts1) with
+        | Some (e, ts2) => map_loop P k c (es ++ [(None, e)]) ts2
+        | None => None
+        end
+      else
+        match ts1 with
+        | t :: ts1' =>
+            match mkey_of_tok t with
+            | Some key =>
+                if hd_is ts1' TColon then
+                  match P c 0 (tl ts1') with
+                  | Some (e, ts2) => map_loop P k c (es ++ [(Some key, e)]) ts2
+                  | None => None
+                  end
+                else None
+            | None => None
+            end
+        | [] => None
+        end
+    end.
+Proof. reflexivity. Qed.
+
+Lemma map_loop_ok : forall d c es acc j trail ts,
+  Forall (xgood d c) (map snd es) ->
+  (trail = true -> acc <> [] \/ es <> []) ->
+  map_loop (PA d) (S (List.length es) + j) c acc
+     (stoks mitem (match acc with [] => true | _ => false end) es ++ trailc trail ++ TRBrace :: ts)
+  = Some (fold_map (acc ++ dentries es), ts).
+Proof.
+  intros d c es. induction es as [|[ko v] r IH]; intros acc j trail ts HF HT.
+  - cbn [stoks app List.length plus dentries map]. rewrite app_nil_r. rewrite map_loop_S.
+    destruct trail.
+    + destruct acc as [|a0 acc0]; [destruct (HT eq_refl) as [X|X]; congruence|].
+      cbn [trailc app]. hdis. cbv beta iota zeta. hdis. reflexivity.
+    + cbn [trailc app]. hdis. reflexivity.
+  - cbn [map snd] in HF. inversion HF as [|x l Hg HF']; subst.
+    pose proof Hg as (TB & Hp & Hn & Hfi).
+    change (S (List.length ((ko, v) :: r)) + j) with (S (S (List.length r) + j)).
+    rewrite map_loop_S.
+    destruct (stail_facts mitem r trail TRBrace ts (or_intror eq_refl)) as [HcR HkR].
+    assert (HT' : trail = true -> acc ++ [(ko, desugar v)] <> [] \/ r <> []).
+    { intros _. left. destruct acc; discriminate. }
+    specialize (IH (acc ++ [(ko, desugar v)]) j trail ts HF' HT').
+    rewrite acc_snoc_nonempty in IH. rewrite <- app_assoc in IH. cbn [app] in IH.
+    cbn [stoks]. rewrite <- !app_assoc.
+    remember (stoks mitem false r ++ trailc trail ++ TRBrace :: ts) as R eqn:ER.
+    pose proof (xgood_parse d c v R Hg HcR) as HP.
+    destruct acc as [|a0 acc0]; destruct ko as [[ks|kz|kb]|]; cbn [mitem tok_mkey app]; hdis; cbv beta iota zeta; hdis;
+      cbn [mkey_of_tok]; cbv beta iota zeta; hdis; rewrite HP; cbv beta iota zeta;
+      cbn [app dentries map] in *; exact IH.
+Qed.
+
+Lemma parse_map_ok : forall d c es trail ts,
+  Forall (xgood d c) (map snd es) -> (trail = true -> es <> []) ->
+  parse_map (PA d) c (stoks mitem true es ++ trailc trail ++ TRBrace :: ts)
+  = Some (fold_map (dentries es), ts).
+Proof.
+  intros d c es trail ts HF HT. unfold parse_map.
+  pose proof (stoks_len mitem es true) as Hl.
+  set (L := List.length (stoks mitem true es ++ trailc trail ++ TRBrace :: ts)).
+  assert (HL : S L = S (List.length es) + (L - List.length es)).
+  { subst L. rewrite !app_length. cbn [List.length]. lia. }
+  rewrite HL.
+  apply (map_loop_ok d c es [] (L - List.length es) trail ts HF).
+  intros Et. right. auto.
+Qed.
+
+Lemma ml_map : forall es trail, (forall v, In v (map snd es) -> TBp v) -> MLp (SMap es trail).
+Proof.
+  intros es trail TBk d c min p k R ts Hthr Hp Hpr Hn Hf Hfo HL.
+  cbn [printable] in Hpr. apply andb_prop in Hpr. destruct Hpr as [Htr Hpk].
+  cbn [need] in Hn. unfold fits in *. cbn [needb needa] in Hf.
+  rewrite raw_map. rewrite desugar_map in HL. cbn [spine]. rewrite Nat.add_0_r.
+  assert (HG : Forall (xgood d c) (map snd es)).
+  { apply xgood_all; auto; lia. }
+  unfold body_k. cbn [app]. unfold Pratt.prefix.
+  rewrite sep_by_stoks. rewrite <- !app_assoc. cbn [app].
+  rewrite (parse_map_ok d c es trail ts HG); [exact HL|].
+  apply nonempty_ne. exact Htr.
+Qed.
+
+(* ---- list comprehensions *)
+Definition comp_names (k : option str) (v : str) : list token :=
+  match k with Some k => [TIdent k; TComma; TIdent v] | None => [TIdent v] end.
+Definition comp_cond (cond : option sx) : list token :=
+  match cond with Some c => TIdent (s2l "if") :: wrap (S lvl_tern) (lvl c) (raw c) | None => [] end.
+Lemma raw_comp : forall e k v target cond,
+  raw (SComp e k v target cond) =
+  TLBracket :: raw e ++ TIdent (s2l "for") :: comp_names k v ++
+  TIdent (s2l "in") :: wrap (S lvl_tern) (lvl target) (raw target) ++ comp_cond cond ++ [TRBracket].
+Proof. reflexivity. Qed.
+
+Lemma kw_for : kw_of (s2l "for") = KFor. Proof. reflexivity. Qed.
+
+Lemma parse_comp_ok : forall d c e' k v target cond ts,
+  is_reserved v = false -> match k with Some k' => is_reserved k' = false | None => True end ->
+  TBp target -> printable target = true -> needw (S lvl_tern) (lvl target) (need target) <= d -> fits target c ->
+  match cond with
+  | Some x => TBp x /\ printable x = true /\ needw (S lvl_tern) (lvl x) (need x) <= d /\ fits x c
+  | None => True
+  end ->
+  parse_comp bp (PA d) c e'
+    (TIdent (s2l "for") :: comp_names k v ++
+     TIdent (s2l "in") :: wrap (S lvl_tern) (lvl target) (raw target) ++ comp_cond cond ++ TRBracket :: ts)
+  = Some (EComp e' k v (desugar target) (option_map desugar cond), ts).
+Proof.
+  intros d c e' k v target cond ts Hv Hk TBt Hpt Hnt Hft Hc.
+  pose proof (top_of target TBt) as TOPt.
+  assert (Htarget : forall rest,
+            refusedL 1 rest = true -> (lvl target <? 1 = false -> followL target rest = true) ->
+            PA d c (S (tern_l bp)) (wrap (S lvl_tern) (lvl target) (raw target) ++ rest) = Some (desugar target, rest)).
+  { intros rest Hr Hfo. apply (TOPt d c (S (tern_l bp)) 1 rest); auto using wf_thr_c. }
+  assert (Hrest : PA d c (S (tern_l bp))
+                    (wrap (S lvl_tern) (lvl target) (raw target) ++ comp_cond cond ++ TRBracket :: ts)
+                  = Some (desugar target, comp_cond cond ++ TRBracket :: ts)).
+  { apply Htarget.
+    - destruct cond; reflexivity.
+    - intros E. destruct cond as [x|]; cbn [comp_cond app followL].
+      + apply follow_left_if. apply Nat.ltb_ge in E. exact E.
+      + apply follow_closer. reflexivity. }
+  assert (Hcond : match hd_kw (comp_cond cond ++ TRBracket :: ts) with
+                  | KIf => match PA d c (S (tern_l bp)) (tl (comp_cond cond ++ TRBracket :: ts)) with
+                           | Some (cd, ts6) => Some (Some cd, ts6) | None => None end
+                  | _ => Some (None, comp_cond cond ++ TRBracket :: ts)
+                  end = Some (option_map desugar cond, TRBracket :: ts)).
+  { destruct cond as [x|]; cbn [comp_cond app option_map].
+    - destruct Hc as (TBx & Hpx & Hnx & Hfx).
+      change (hd_kw (TIdent (s2l "if") :: wrap (S lvl_tern) (lvl x) (raw x) ++ TRBracket :: ts)) with KIf.
+      cbv iota. cbn [tl].
+      assert (Hx : PA d c (S (tern_l bp)) (wrap (S lvl_tern) (lvl x) (raw x) ++ TRBracket :: ts)
+                   = Some (desugar x, TRBracket :: ts)).
+      { apply (top_of x TBx d c (S (tern_l bp)) 1 (TRBracket :: ts)); auto using wf_thr_c.
+        intros _. apply follow_closer. reflexivity. }
+      rewrite Hx. reflexivity.
+    - reflexivity. }
+  unfold parse_comp.
+  destruct k as [k'|]; cbn [comp_names app as_ident].
+  - rewrite Hk. hdis. cbv beta iota zeta. cbn [tl as_ident]. rewrite Hv. cbv beta iota zeta.
+    match goal with |- context [hd_kw (TIdent (s2l "in") :: ?r)] => change (hd_kw (TIdent (s2l "in") :: r)) with KIn end.
+    cbv iota. cbn [tl]. rewrite Hrest. cbv beta iota zeta. rewrite Hcond. hdis. reflexivity.
+  - rewrite Hv. hdis. cbv beta iota zeta.
+    match goal with |- context [hd_kw (TIdent (s2l "in") :: ?r)] => change (hd_kw (TIdent (s2l "in") :: r)) with KIn end.
+    cbv iota. cbn [tl]. rewrite Hrest. cbv beta iota zeta. rewrite Hcond. hdis. reflexivity.
+Qed.
+
+Lemma ml_comp : forall e k v target cond, TBp e -> TBp target ->
+  (forall x, cond = Some x -> TBp x) -> MLp (SComp e k v target cond).
+Proof.
+  intros e k v target cond TBe TBt TBc d c min p k0 R ts Hthr Hp Hpr Hn Hf Hfo HL.
+  cbn [printable] in Hpr. repeat (apply andb_prop in Hpr; destruct Hpr as [Hpr ?]).
+  rename H into Hpc, H0 into Hpt, H1 into Hrk, H2 into Hrv.
+  apply negb_true_iff in Hrv.
+  cbn [need] in Hn. unfold fits in *. cbn [needb needa] in Hf.
+  rewrite raw_comp. cbn [spine desugar] in *. rewrite Nat.add_0_r.
+  unfold body_k. cbn [app]. unfold Pratt.prefix. unfold parse_array.
+  assert (E : maxdim <? S (snd c) = false) by (apply Nat.ltb_ge; lia). rewrite E.
+  repeat (rewrite <- app_assoc; cbn [app]).
+  rewrite array_loop_S.
+  rewrite (hd_raw_rbracket e _ Hpr). cbv beta iota zeta.
+  rewrite ?(hd_raw_rbracket e _ Hpr), (hd_raw_spread e _ Hpr).
+  rewrite (TBe d (fst c, S (snd c)) 0 0); try solve [side]; try lia; try (unfold fits; cbn [fst snd]; lia).
+  cbv beta iota zeta.
+  match goal with |- context [hd_kw (TIdent (s2l "for") :: ?r)] => change (hd_kw (TIdent (s2l "for") :: r)) with KFor end.
+  cbv iota.
+  assert (Hk' : match k with Some k' => is_reserved k' = false | None => True end).
+  { destruct k as [k'|]; [apply negb_true_iff in Hrk; exact Hrk|exact I]. }
+  assert (Hc' : match cond with
+                | Some x => TBp x /\ printable x = true /\ needw (S lvl_tern) (lvl x) (need x) <= d /\ fits x c
+                | None => True
+                end).
+  { destruct cond as [x|]; [|exact I]. cbv beta iota in Hn, Hf, Hpc.
+    repeat split; auto; try lia; unfold fits; lia. }
+  assert (Hnt : needw (S lvl_tern) (lvl target) (need target) <= d) by lia.
+  assert (Hft : fits target c) by (unfold fits; lia).
+  rewrite (parse_comp_ok d c (desugar e) k v target cond ts Hrv Hk' TBt Hpt Hnt Hft Hc'). exact HL.
+Qed.
+
 (* ------------------------------------------------------------------ assembling: induction on size *)
 Lemma size_kw : forall (kw : list (str * sx)) v,
   In v (map snd kw) ->
   size v <= list_sum (map (fun p : str * sx => match p with (_, v) => size v end) kw).
 Proof.
   induction kw as [|[n x] r IH]; intros v H; [cbn in H; tauto|].
+  cbn [map snd In] in H. cbn [map list_sum fold_right]. unfold list_sum in IH.
+  destruct H as [->|H]; [lia|]. specialize (IH v H). lia.
+Qed.
+
+Lemma size_pair : forall {A} (l : list (A * sx)) v,
+  In v (map snd l) ->
+  size v <= list_sum (map (fun p : A * sx => match p with (_, v) => size v end) l).
+Proof.
+  intros A. induction l as [|[n x] r IH]; intros v H; [cbn in H; tauto|].
   cbn [map snd In] in H. cbn [map list_sum fold_right]. unfold list_sum in IH.
   destruct H as [->|H]; [lia|]. specialize (IH v H). lia.
 Qed.
@@ -1240,9 +1650,9 @@ Proof.
   - apply ml_call. intros v Hv. apply TB. pose proof (size_kw kw v Hv). lia.
   - apply ml_tern; try (apply IH; lia); apply TB; lia.
   - apply ml_paren. apply TB. lia.
-  - intros d0 cc min p k0 R ts0 _ _ Hpr. discriminate.
-  - intros d0 cc min p k0 R ts0 _ _ Hpr. discriminate.
-  - intros d0 cc min p k0 R ts0 _ _ Hpr. discriminate.
+  - apply ml_arr. intros v Hv. apply TB. pose proof (size_pair items v Hv). lia.
+  - apply ml_map. intros v Hv. apply TB. pose proof (size_pair entries v Hv). lia.
+  - apply ml_comp; try (apply TB; lia). intros x E. subst. apply TB. cbn [size] in Hs. lia.
 Qed.
 
 Theorem tb_all : forall s, TBp s.
@@ -1253,43 +1663,70 @@ End RoundTrip.
 (* ------------------------------------------------------------------ the theorems *)
 Theorem pratt_roundtrip_gen : forall bp, wf_bp bp = true ->
   forall maxb maxdim s d c rest,
-  printable s = true -> need s <= d -> fst c + needb s <= maxb -> closerL rest = true ->
+  printable s = true -> need s <= d -> fst c + needb s <= maxb -> snd c + needa s <= maxdim ->
+  closerL rest = true ->
   parse bp maxb maxdim d c 0 (print s ++ rest) = Some (desugar s, rest).
 Proof.
-  intros bp Hwf maxb maxdim s d c rest Hp Hn Hb Hc.
+  intros bp Hwf maxb maxdim s d c rest Hp Hn Hb Ha Hc.
   apply (tb_all bp Hwf maxb maxdim s d c 0 0 rest); auto using wf_thr0, closerL_refusedL, closerL_followL.
-  lia.
+  - lia.
+  - split; assumption.
 Qed.
 
 Lemma gen_bp_wf : wf_bp gen_bp = true /\ gen_rows_complete = true.
 Proof. split; vm_compute; reflexivity. Qed.
 
 Theorem pratt_roundtrip_top : forall s,
-  printable s = true -> need s <= top_depth -> needb s <= max_brackets ->
+  printable s = true -> need s <= top_depth -> needb s <= max_brackets -> needa s <= max_dim ->
   parse_top gen_bp (print s ++ [TVarEnd]) = Some (desugar s).
 Proof.
-  intros s Hp Hn Hb. unfold parse_top.
+  intros s Hp Hn Hb Ha. unfold parse_top.
   rewrite (pratt_roundtrip_gen gen_bp (proj1 gen_bp_wf) max_brackets max_dim s top_depth (0, 0) [TVarEnd]); auto.
 Qed.
 
 (* every way of writing an expression (redundant parentheses anywhere, `not in` / `is not`
-   or the explicit negation) parses to the same tree *)
+   or the explicit negation, trailing commas in array / map literals) parses to the same tree *)
 Theorem pratt_roundtrip_decorated : forall bp, wf_bp bp = true ->
   forall maxb maxdim e s d c rest,
   desugar s = e ->
-  printable s = true -> need s <= d -> fst c + needb s <= maxb -> closerL rest = true ->
+  printable s = true -> need s <= d -> fst c + needb s <= maxb -> snd c + needa s <= maxdim ->
+  closerL rest = true ->
   parse bp maxb maxdim d c 0 (print s ++ rest) = Some (e, rest).
 Proof. intros. subst e. apply pratt_roundtrip_gen; auto. Qed.
 
 Theorem pratt_redundant_parens : forall bp, wf_bp bp = true ->
   forall maxb maxdim s d c rest,
-  printable s = true -> S (need s) <= d -> fst c + needb s <= maxb -> closerL rest = true ->
+  printable s = true -> S (need s) <= d -> fst c + needb s <= maxb -> snd c + needa s <= maxdim ->
+  closerL rest = true ->
   parse bp maxb maxdim d c 0 (TLParen :: print s ++ TRParen :: rest) = Some (desugar s, rest).
 Proof.
-  intros bp Hwf maxb maxdim s d c rest Hp Hn Hb Hc.
+  intros bp Hwf maxb maxdim s d c rest Hp Hn Hb Ha Hc.
   pose proof (pratt_roundtrip_gen bp Hwf maxb maxdim (SParen s) d c rest) as H.
-  cbn [print raw desugar printable need needb] in H. unfold paren in H. cbn [app] in H.
+  cbn [print raw desugar printable need needb needa] in H. unfold paren in H. cbn [app] in H.
   rewrite <- app_assoc in H. cbn [app] in H. apply H; auto.
+Qed.
+
+(* a trailing comma after the last element of an array / map literal does not change the tree *)
+Theorem pratt_trailing_comma : forall bp, wf_bp bp = true ->
+  forall maxb maxdim d c rest,
+  (forall items, items <> [] ->
+     printable (SArr items false) = true -> need (SArr items false) <= d ->
+     fst c + needb (SArr items false) <= maxb -> snd c + needa (SArr items false) <= maxdim ->
+     closerL rest = true ->
+     parse bp maxb maxdim d c 0 (print (SArr items true) ++ rest) = Some (desugar (SArr items false), rest)) /\
+  (forall es, es <> [] ->
+     printable (SMap es false) = true -> need (SMap es false) <= d ->
+     fst c + needb (SMap es false) <= maxb -> snd c + needa (SMap es false) <= maxdim ->
+     closerL rest = true ->
+     parse bp maxb maxdim d c 0 (print (SMap es true) ++ rest) = Some (desugar (SMap es false), rest)).
+Proof.
+  intros bp Hwf maxb maxdim d c rest. split.
+  - intros items Hne Hp Hn Hb Ha Hc.
+    apply (pratt_roundtrip_gen bp Hwf maxb maxdim (SArr items true) d c rest); auto.
+    cbn [printable] in *. destruct items; [congruence|exact Hp].
+  - intros es Hne Hp Hn Hb Ha Hc.
+    apply (pratt_roundtrip_gen bp Hwf maxb maxdim (SMap es true) d c rest); auto.
+    cbn [printable] in *. destruct es; [congruence|exact Hp].
 Qed.
 
 (* ---- from the AST: embed e is the surface tree without sugar or parentheses *)
@@ -1311,75 +1748,219 @@ Fixpoint esize (e : expr) : nat :=
   | EComp e _ _ t c => S (esize e + esize t + osz c)
   end.
 
-Lemma esize_kw : forall (kw : list (str * expr)) k v,
+Lemma esize_kw : forall {A} (kw : list (A * expr)) k v,
   In (k, v) kw ->
-  esize v <= list_sum (map (fun p : str * expr => match p with (_, v) => esize v end) kw).
+  esize v <= list_sum (map (fun p : A * expr => match p with (_, v) => esize v end) kw).
 Proof.
-  induction kw as [|[n x] r IH]; intros k v H; [cbn in H; tauto|].
+  intros A. induction kw as [|[n x] r IH]; intros k v H; [cbn in H; tauto|].
   cbn [In] in H. cbn [map list_sum fold_right]. unfold list_sum in IH.
   destruct H as [H|H]; [inversion H; subst; lia|]. specialize (IH k v H). lia.
 Qed.
 
-Lemma dkw_embed : forall (kw : list (str * expr)),
+Lemma dkw_embed : forall {A} (kw : list (A * expr)),
   (forall k v, In (k, v) kw -> desugar (embed v) = v) ->
-  map (fun p : str * sx => match p with (k, v) => (k, desugar v) end)
-      (map (fun p : str * expr => match p with (k, v) => (k, embed v) end) kw) = kw.
+  map (fun p : A * sx => match p with (k, v) => (k, desugar v) end)
+      (map (fun p : A * expr => match p with (k, v) => (k, embed v) end) kw) = kw.
 Proof.
-  induction kw as [|[n x] r IH]; intros H; [reflexivity|].
+  intros A. induction kw as [|[n x] r IH]; intros H; [reflexivity|].
   cbn [map]. rewrite (H n x) by (left; reflexivity). rewrite IH; [reflexivity|].
   intros k v Hin. apply (H k v). right. exact Hin.
 Qed.
 
-Lemma printable_kw_embed : forall (kw : list (str * expr)) k v,
-  forallb (fun p : str * sx => match p with (_, v) => printable v end)
-          (map (fun p : str * expr => match p with (k, v) => (k, embed v) end) kw) = true ->
+Lemma printable_kw_embed : forall {A} (kw : list (A * expr)) k v,
+  forallb (fun p : A * sx => match p with (_, v) => printable v end)
+          (map (fun p : A * expr => match p with (k, v) => (k, embed v) end) kw) = true ->
   In (k, v) kw -> printable (embed v) = true.
 Proof.
-  induction kw as [|[n x] r IH]; intros k v H Hin; [cbn in Hin; tauto|].
+  intros A. induction kw as [|[n x] r IH]; intros k v H Hin; [cbn in Hin; tauto|].
   cbn [map forallb] in H. apply andb_prop in H. destruct H as [H1 H2].
   destruct Hin as [E|Hin]; [inversion E; subst; exact H1|]. eapply IH; eauto.
 Qed.
 
-Lemma desugar_embed_n : forall n e, esize e <= n -> printable (embed e) = true -> desugar (embed e) = e.
+Lemma normal_kw : forall {A} (kw : list (A * expr)) k v,
+  forallb (fun p : A * expr => match p with (_, v) => normal v end) kw = true ->
+  In (k, v) kw -> normal v = true.
 Proof.
-  induction n as [|n IH]; intros e Hs Hp.
+  intros A. induction kw as [|[n x] r IH]; intros k v H Hin; [cbn in Hin; tauto|].
+  cbn [forallb] in H. apply andb_prop in H. destruct H as [H1 H2].
+  destruct Hin as [E|Hin]; [inversion E; subst; exact H1|]. eapply IH; eauto.
+Qed.
+
+(* ---- folded (literal-only) container constants: `cembed` writes them out as the literal *)
+Fixpoint csize (c : const) : nat :=
+  match c with
+  | CArr l => S (list_sum (map csize l))
+  | CMap m => S (list_sum (map (fun kv : mkey * const => csize (snd kv)) m))
+  | _ => 1
+  end.
+
+Lemma in_list_sum : forall {A} (f : A -> nat) l x, In x l -> f x <= list_sum (map f l).
+Proof.
+  intros A f. induction l as [|y r IH]; intros x H; [cbn in H; tauto|].
+  cbn [map list_sum fold_right]. unfold list_sum in IH. destruct H as [->|H]; [lia|]. specialize (IH x H). lia.
+Qed.
+
+Lemma mkey_eqb_sym : forall a b, mkey_eqb a b = mkey_eqb b a.
+Proof.
+  destruct a as [s|z|x], b as [s'|z'|x']; cbn [mkey_eqb]; try reflexivity.
+  - destruct (str_eqb s s') eqn:E1; destruct (str_eqb s' s) eqn:E2; try reflexivity.
+    + apply str_eqb_eq in E1. subst. rewrite (proj2 (str_eqb_eq s' s') eq_refl) in E2. discriminate.
+    + apply str_eqb_eq in E2. subst. rewrite (proj2 (str_eqb_eq s s) eq_refl) in E1. discriminate.
+  - apply Z.eqb_sym.
+  - destruct x, x'; reflexivity.
+Qed.
+
+Lemma insert_fresh : forall k v acc,
+  existsb (fun a => mkey_eqb a k) (map fst acc) = false -> cmap_insert k v acc = acc ++ [(k, v)].
+Proof.
+  intros k v. induction acc as [|[k' v'] r IH]; cbn [map fst existsb cmap_insert app]; intros H; [reflexivity|].
+  apply orb_false_elim in H. destruct H as [H1 H2]. rewrite mkey_eqb_sym, H1. rewrite IH by exact H2. reflexivity.
+Qed.
+
+Lemma keys_nodup_app_cons : forall A k R, keys_nodup (A ++ k :: R) = true ->
+  existsb (fun a => mkey_eqb a k) A = false.
+Proof.
+  induction A as [|a A' IH]; intros k R H; [reflexivity|].
+  cbn [app keys_nodup] in H. apply andb_prop in H. destruct H as [H1 H2].
+  cbn [existsb]. rewrite (IH k R H2), orb_false_r.
+  apply negb_true_iff in H1. rewrite existsb_app in H1. apply orb_false_elim in H1. destruct H1 as [_ H1].
+  cbn [existsb] in H1. apply orb_false_elim in H1. destruct H1 as [H1 _]. exact H1.
+Qed.
+
+Definition centry (kv : mkey * const) : option mkey * expr := match kv with (k, x) => (Some k, EConst x) end.
+
+Lemma as_const_entries_fold : forall m acc,
+  keys_nodup (map fst acc ++ map fst m) = true ->
+  fold_left (fun acc en =>
+    match acc, en with
+    | Some m, (Some k, EConst c) => Some (cmap_insert k c m)
+    | _, _ => None
+    end) (map centry m) (Some acc) = Some (acc ++ m).
+Proof.
+  induction m as [|[k x] r IH]; intros acc H; cbn [map fold_left centry].
+  - rewrite app_nil_r. reflexivity.
+  - cbn [map fst] in H.
+    rewrite (insert_fresh k x acc (keys_nodup_app_cons _ _ _ H)).
+    rewrite IH.
+    + rewrite <- app_assoc. reflexivity.
+    + rewrite map_app. cbn [map fst]. rewrite <- app_assoc. exact H.
+Qed.
+
+Lemma as_consts_consts : forall l, as_consts (map (fun x : const => (false, EConst x)) l) = Some l.
+Proof.
+  induction l as [|x r IH]; [reflexivity|].
+  unfold as_consts in *. cbn [map fold_right]. rewrite IH. reflexivity.
+Qed.
+
+Lemma cembed_ok_n : forall n c, csize c <= n -> const_ok c = true ->
+  desugar (cembed c) = EConst c /\ printable (cembed c) = true.
+Proof.
+  induction n as [|n IH]; intros c Hs Hok.
+  - destruct c; cbn [csize] in Hs; lia.
+  - destruct c as [z|d|s|b| |l|m]; try (split; reflexivity).
+    + (* CArr *)
+      cbn [csize] in Hs. cbn [const_ok] in Hok. rewrite forallb_forall in Hok.
+      assert (Hx : forall x, In x l -> desugar (cembed x) = EConst x /\ printable (cembed x) = true).
+      { intros x Hin. apply IH; [pose proof (in_list_sum csize l x Hin); lia|auto]. }
+      cbn [cembed desugar printable]. split.
+      * rewrite map_map.
+        rewrite (map_ext_in _ (fun x : const => (false, EConst x))).
+        -- unfold fold_array. rewrite as_consts_consts. reflexivity.
+        -- intros x Hin. rewrite (proj1 (Hx x Hin)). reflexivity.
+      * cbn [andb]. apply forallb_forall. intros [b v] Hin. apply in_map_iff in Hin.
+        destruct Hin as (x & E & Hin). inversion E; subst. apply (Hx x Hin).
+    + (* CMap *)
+      cbn [csize] in Hs. cbn [const_ok] in Hok. apply andb_prop in Hok. destruct Hok as [Hnd Hok].
+      rewrite forallb_forall in Hok.
+      assert (Hx : forall kv, In kv m -> desugar (cembed (snd kv)) = EConst (snd kv) /\ printable (cembed (snd kv)) = true).
+      { intros kv Hin. apply IH; [pose proof (in_list_sum (fun kv : mkey * const => csize (snd kv)) m kv Hin); lia|auto]. }
+      cbn [cembed desugar printable]. split.
+      * rewrite map_map.
+        rewrite (map_ext_in _ centry).
+        -- unfold fold_map, as_const_entries. rewrite (as_const_entries_fold m []); [reflexivity|exact Hnd].
+        -- intros [k x] Hin. pose proof (proj1 (Hx (k, x) Hin)) as E. cbn [snd] in E. rewrite E. reflexivity.
+      * cbn [andb]. apply forallb_forall. intros [ko v] Hin. apply in_map_iff in Hin.
+        destruct Hin as ([k x] & E & Hin). inversion E; subst. exact (proj2 (Hx (k, x) Hin)).
+Qed.
+
+Lemma cembed_ok : forall c, const_ok c = true -> desugar (cembed c) = EConst c.
+Proof. intros c H. apply (cembed_ok_n (csize c) c); auto. Qed.
+
+Lemma desugar_embed_n : forall n e, esize e <= n -> normal e = true -> printable (embed e) = true ->
+  desugar (embed e) = e.
+Proof.
+  induction n as [|n IH]; intros e Hs Hno Hp.
   - destruct e; cbn [esize] in Hs; lia.
-  - destruct e; cbn [esize] in Hs; cbn [embed printable desugar] in *; try discriminate.
-    + reflexivity.
+  - destruct e; cbn [esize] in Hs; cbn [embed printable desugar normal] in *; try discriminate.
+    + apply cembed_ok. exact Hno.
     + reflexivity.
     + apply andb_prop in Hp. destruct Hp as [_ Hp]. rewrite IH; auto. lia.
     + apply andb_prop in Hp. destruct Hp as [Hp Hpi]. apply andb_prop in Hp. destruct Hp as [_ Hp].
+      apply andb_prop in Hno. destruct Hno as [Hn1 Hn2].
       rewrite !IH; auto; lia.
     + repeat (apply andb_prop in Hp; destruct Hp as [Hp ?]).
+      repeat (apply andb_prop in Hno; destruct Hno as [Hno ?]).
       assert (Ho : forall o : option expr,
                 (match o with Some x => esize x | None => 0 end) <= n ->
+                match o with Some x => normal x | None => true end = true ->
                 match option_map embed o with Some x => printable x | None => true end = true ->
                 option_map desugar (option_map embed o) = o).
-      { intros [x|] Hsz Hpo; cbn in *; [rewrite IH; auto|reflexivity]. }
+      { intros [x|] Hsz Hnx Hpo; cbn in *; [rewrite IH; auto|reflexivity]. }
       rewrite IH; auto; try lia. rewrite !Ho; auto; lia.
     + rewrite IH; auto. lia.
     + apply andb_prop in Hp. destruct Hp as [Hp Hpb]. apply andb_prop in Hp. destruct Hp as [_ Hp].
+      apply andb_prop in Hno. destruct Hno as [Hn1 Hn2].
       rewrite !IH; auto; lia.
     + repeat (apply andb_prop in Hp; destruct Hp as [Hp ?]).
+      apply andb_prop in Hno. destruct Hno as [Hn1 Hn2].
       rewrite IH; auto; try lia. rewrite dkw_embed; [reflexivity|].
-      intros k v Hin. apply IH; [pose proof (esize_kw _ _ _ Hin); lia|]. eapply printable_kw_embed; eauto.
+      intros k v Hin. apply IH; [pose proof (esize_kw _ _ _ Hin); lia|eapply normal_kw; eauto|].
+      eapply printable_kw_embed; eauto.
     + repeat (apply andb_prop in Hp; destruct Hp as [Hp ?]).
+      apply andb_prop in Hno. destruct Hno as [Hn1 Hn2].
       rewrite IH; auto; try lia. rewrite dkw_embed; [reflexivity|].
-      intros k v Hin. apply IH; [pose proof (esize_kw _ _ _ Hin); lia|]. eapply printable_kw_embed; eauto.
+      intros k v Hin. apply IH; [pose proof (esize_kw _ _ _ Hin); lia|eapply normal_kw; eauto|].
+      eapply printable_kw_embed; eauto.
     + repeat (apply andb_prop in Hp; destruct Hp as [Hp ?]).
       rewrite dkw_embed; [reflexivity|].
-      intros k v Hin. apply IH; [pose proof (esize_kw _ _ _ Hin); lia|]. eapply printable_kw_embed; eauto.
-    + repeat (apply andb_prop in Hp; destruct Hp as [Hp ?]). rewrite !IH; auto; lia.
+      intros k v Hin. apply IH; [pose proof (esize_kw _ _ _ Hin); lia|eapply normal_kw; eauto|].
+      eapply printable_kw_embed; eauto.
+    + repeat (apply andb_prop in Hp; destruct Hp as [Hp ?]).
+      repeat (apply andb_prop in Hno; destruct Hno as [Hno ?]). rewrite !IH; auto; lia.
+    + (* EArr *)
+      apply andb_prop in Hno. destruct Hno as [Hac Hn2].
+      rewrite dkw_embed.
+      * unfold fold_array. destruct (as_consts items); [discriminate|reflexivity].
+      * intros k v Hin. apply IH; [pose proof (esize_kw _ _ _ Hin); lia|eapply normal_kw; eauto|].
+        eapply printable_kw_embed; eauto.
+    + (* EMap *)
+      apply andb_prop in Hno. destruct Hno as [Hac Hn2].
+      rewrite dkw_embed.
+      * unfold fold_map. destruct (as_const_entries entries); [discriminate|reflexivity].
+      * intros k v Hin. apply IH; [pose proof (esize_kw _ _ _ Hin); lia|eapply normal_kw; eauto|].
+        eapply printable_kw_embed; eauto.
+    + (* EComp *)
+      repeat (apply andb_prop in Hp; destruct Hp as [Hp ?]).
+      repeat (apply andb_prop in Hno; destruct Hno as [Hno ?]).
+      assert (Ho : forall o : option expr,
+                (match o with Some x => esize x | None => 0 end) <= n ->
+                match o with Some x => normal x | None => true end = true ->
+                match option_map embed o with Some x => printable x | None => true end = true ->
+                option_map desugar (option_map embed o) = o).
+      { intros [x|] Hsz Hnx Hpo; cbn in *; [rewrite IH; auto|reflexivity]. }
+      rewrite !IH; auto; try lia. rewrite Ho; auto; lia.
 Qed.
 
-Lemma desugar_embed : forall e, printable (embed e) = true -> desugar (embed e) = e.
+Lemma desugar_embed : forall e, normal e = true -> printable (embed e) = true -> desugar (embed e) = e.
 Proof. intros e. apply (desugar_embed_n (esize e)). lia. Qed.
 
-(* for every expression tree of the modelled grammar: print with exactly the parentheses the
-   documented table demands, parse, get the tree back *)
+(* for every expression tree the parser can produce (`normal`): print with exactly the parentheses
+   the documented table demands, parse, get the tree back *)
 Theorem pratt_roundtrip_ast : forall bp, wf_bp bp = true ->
   forall maxb maxdim e d c rest,
+  normal e = true ->
   printable (embed e) = true -> need (embed e) <= d -> fst c + needb (embed e) <= maxb ->
+  snd c + needa (embed e) <= maxdim ->
   closerL rest = true ->
   parse bp maxb maxdim d c 0 (print (embed e) ++ rest) = Some (e, rest).
 Proof.
